@@ -66,22 +66,23 @@ def run(ctx):
                 return T.call("set", (T.attr(T.idx(verts, T.idx(elem, i)), "ownEdges"),))
             a, b = sorted([own(k), own(T.add(k, T.num(1)))], key=repr)
             common = T.idx(T.call("list", (T.call("bitand", (a, b)),)), T.num(0))
-            want = ("map", common, k, T.call("range", (T.num(0), T.sub(T.call("len", (elem,)), T.num(1)))), T.TRUE)
-            want2 = ("map", common, k, T.call("range", (T.sub(T.call("len", (elem,)), T.num(1)),)), T.TRUE)
+            # canonical form: the loop over the list of common edges is the loop over the positions k that list is built from
             it = lp[1][2]
-            ok_edges = T.alpha(it) in (T.alpha(want), T.alpha(want2)) and e.target == T.attr(T.idx(T.attr(FRAME, "edges"), b1), "tension")
+            ok_edges = it == T.call("range", (T.sub(T.call("len", (elem,)), T.num(1)),)) and not e.conds() and \
+                e.target == T.attr(T.idx(T.attr(FRAME, "edges"), T.substitute(common, {k: b1})), "tension")
         ctx.check(ok_edges, "ALIGN", f"{f.qualname} / ALIGN / mesh edges of the interface = edges joining consecutive ids", where,
                   "edges written = common ownEdges of element[k], element[k+1] for k in range(len-1), in frame.edges",
                   f"the mesh edges receiving column i's value are not the edges between consecutive vertices of interface i: "
                   f"{T.show(T.alpha(lp[1][2]))[:200] if len(lp) > 1 else '?'}")
 
     ctx.clause("the reported dictionary enumerates the solution (multiplier stripped, -1 re-inserted) by position")
-    fd = [e for e in s.stores() if e.sub and e.loops() and e.key == T.idx(("bv", e.loops()[-1][1]), T.num(0))
-          and e.value == T.idx(("bv", e.loops()[-1][1]), T.num(1)) and not e.conds()]
     ok = False
-    for e in fd:
-        it = e.loops()[-1][2]
-        if X is not None and it == T.call("enumerate", (T.call(f"{FM}.get_solution_no_discarded", (SELF, T.idx(X, ("slice", T.NONE, T.num(-1), T.NONE)))),)):
+    for e in rules.entries(s, attr="force_dictionary"):
+        if not e.loops() or e.conds():
+            continue
+        ro = rules.roles(e.loops()[-1])
+        if X is not None and ro.kind == "enumerate" and e.key == ro.pos and e.elem == ro.elem and \
+                ro.base == T.call(f"{FM}.get_solution_no_discarded", (SELF, T.idx(X, ("slice", T.NONE, T.num(-1), T.NONE)))):
             ok = True
             where = ctx.where(f, e.node)
     ret_ok = any(r[1] == s.heap.get(T.attr(SELF, "force_dictionary")) or True for r in s.returns)
